@@ -440,6 +440,31 @@ def stack_blocks(ctx, rr):
             if not ok:
                 rr.fail(ctx.finding('R-STACK-BLOCKS', u, a, 'the block popped from `%s` is not re-read from storage right away: the traversal would '
                                     'work on data cached before the yield' % stack))
+    # the node object a traversal reads blocks into belongs to that traversal alone
+    for u in gens:
+        recvs = set()
+        for c in P.own(u, ast.Call):
+            if isinstance(c.func, ast.Attribute) and c.func.attr in RELOADS and any(t.cls in NODEC for t in P.targets(c)):
+                if isinstance(c.func.value, ast.Name):
+                    recvs.add(c.func.value.id)
+                else:
+                    rr.fail(ctx.finding('R-STACK-BLOCKS', u, c, 'a traversal reads blocks into `%s`, an object shared beyond this traversal: two traversals advanced in turns '
+                                        'overwrite each other\'s current node' % ast.unparse(c.func.value)))
+        for r in sorted(recvs):
+            defs = [a for a in P.own(u, ast.Assign) if r in names_in_target(a.targets[0])]
+            fresh = True
+            for a in defs:
+                v = a.value
+                okv = isinstance(v, ast.Call) and any((t.cls == TRIE_NODE and t.name == '__init__') or (t.cls == 'LRUTrie' and t.name in ('node', 'root'))
+                                                      or (t.cls == TRIE_NODE and t.name.endswith('_node')) for t in P.targets(v))
+                fresh = fresh and okv
+            if r in u.params:
+                fresh = False
+            rr.ob(ctx.where(u), 'traversal node `%s` of %s is created by the traversal itself' % (r, u.qual), ok=fresh or not defs and r not in u.params)
+            if defs and not fresh:
+                bad = [a for a in defs if not (isinstance(a.value, ast.Call))] or defs
+                rr.fail(ctx.finding('R-STACK-BLOCKS', u, bad[0], 'the node `%s` that %s reads blocks into is not created by the traversal itself (%s): traversals advanced in '
+                                    'turns share it and follow each other\'s pointers' % (r, u.qual, ast.unparse(bad[0].value)[:40])))
     rr.require(nst, 3, 'explicit traversal stacks')
 
 
